@@ -143,6 +143,9 @@ Next ==
   \/ \E n \in Names, v \in Lists : Create(n, v) /\ Log(<<"createl", n, v>>)
   \/ \E n \in Names, v \in Scalars : SetItem(n, Bcast(v)) /\ Log(<<"setitem", n, v>>)
   \/ \E n \in Names, v \in Lists : SetItem(n, v) /\ Log(<<"setiteml", n, v>>)
+  \* a feature computed by a FUNCTION of (track, index): t[n] = f and t.addAnalyticalFeature(f, n); f(track, i) = 3 i + 2 (i from 0)
+  \/ \E n \in Names : SetItem(n, [i \in Obs |-> 3 * i - 1]) /\ Log(<<"setitemf", n>>)
+  \/ \E n \in Names : SetItem(n, [i \in Obs |-> 3 * i - 1]) /\ Log(<<"addaf", n>>)
   \/ \E n \in Names, v \in Scalars : Update(n, Bcast(v)) /\ Log(<<"update", n, v>>)
   \/ \E n \in Names : Remove(n) /\ Log(<<"remove", n>>)
   \/ \E n \in Names : Remove(n) /\ Log(<<"delitem", n>>)
